@@ -75,6 +75,25 @@ def main(inp, outp):
         # last): a propagator works in ITS OWN frame, whatever frame object the name resolved to - creation order alternates
         order = ("QSW", "TNW") if si % 2 == 0 else ("TNW", "QSW")
         props = {o_: ClohessyWiltshire(sma, frame=HillFrame(orientation=o_)) for o_ in order}
+        # the propagator may also be built from the TARGET orbit (ClohessyWiltshire.from_orbit): the orientation asked for is the one
+        # obtained, whatever Hill frames were created before (the two above, in alternating order)
+        tgt = Orbit([sma, 0.0, 0.9, 1.0, 0.0, 0.7], EPOCH, "keplerian", "EME2000", "Kepler")
+        for oi, o_ in enumerate(order[::-1] + order):
+            try:
+                pf = ClohessyWiltshire.from_orbit(tgt, orientation=o_, name=f"VfCwTgt{si}x{oi}")
+                e = np.zeros(6)
+                e[0] = 1.0
+                tq = 0.25 * 2 * np.pi / np.sqrt(Earth.mu / sma ** 3)
+                dq = EPOCH + timedelta(seconds=tq)
+                got = np.asarray(Orbit(e, EPOCH, "cartesian", pf.frame, pf).propagate(dq), float)
+                want = tab.Phi(np.sqrt(Earth.mu / sma ** 3), (dq - EPOCH).total_seconds(), o_)[:, 0]
+                okf = pf.frame.orientation == o_ and abs(pf.sma - sma) <= 1e-6 * sma and float(np.abs(got - want).max()) <= 1e-6
+                msg = f"frame {pf.frame.name}, sma {pf.sma}, unit-state response off by {float(np.abs(got - want).max()):.3g}"
+            except Exception as ex:
+                okf, msg = False, f"{type(ex).__name__}: {ex}"
+            res["evaluations"] += 1
+            clause("a propagator built from the target orbit (from_orbit) has the orientation that was asked for and the target's semi-major axis", okf,
+                   "cw/from-orbit", f"from_orbit(target a={sma}, orientation={o_}) after Hill frames {list(order)}: {msg}", {"sma": sma, "orientation": o_, "created_before": list(order)})
         for orient in ("QSW", "TNW"):
             prop = props[orient]
             n = prop.n
